@@ -139,14 +139,23 @@ def _mysql_worker(args):
                         my.MySQLVersion(pv), sv, 0xffffffff, bytes(range(8)), {my.MySQLCapability.CLIENT_SSL}, cs, set()),
                         'mysql_handshake', lambda o, cs=cs, sv=sv: None if (o.character_set is cs and o.server_version == sv) else 'charset_version',
                         {'kind': 'mysql_handshake', 'charset': cs.name})
-        for alen in (0, 1, 12, 13, 247):
-            caps = 0x0800 | int(my.MySQLCapability.CLIENT_PLUGIN_AUTH)
+        # auth-plugin data of every length 0..21 (and the maximum 247) x plugin name absent / present x every other
+        # capability alone next to CLIENT_PLUGIN_AUTH: the length octet, not another capability, says how long part 2 is
+        base_caps = 0x0800 | int(my.MySQLCapability.CLIENT_PLUGIN_AUTH)
+        others = [0] + [int(c) for c in my.MySQLCapability if not int(c) & base_caps]
+        for alen in list(range(0, 22)) + [247]:
             for name in ('', 'mysql_native_password'):
-                wire = ref.mysql_handshake_v10(10, 'v', 1, b'\x05' * 8, caps, 33, 0, b'\x06' * alen, name)
-                both_ways(acc, my.MySQLHandshakeV10, wire, None, 'mysql_auth_plugin',
-                          lambda o, alen=alen, name=name: None if (bytes(o.auth_plugin_data_2 or b'') == b'\x06' * alen and
-                                                                    o.auth_plugin_name == name) else 'auth_plugin',
-                          {'kind': 'mysql_auth_plugin', 'len': alen, 'name': name})
+                for extra in others:
+                    caps = base_caps | extra
+                    wire = ref.mysql_handshake_v10(10, 'v', 1, b'\x05' * 8, caps, 33, 0, b'\x06' * alen, name)
+                    both_ways(acc, my.MySQLHandshakeV10, wire, (lambda caps=caps, alen=alen, name=name: my.MySQLHandshakeV10(
+                        my.MySQLVersion(10), 'v', 1, b'\x05' * 8, members_of(my.MySQLCapability, caps),
+                        my.MySQLCharacterSet.UTF8_GENERAL_CI if hasattr(my.MySQLCharacterSet, 'UTF8_GENERAL_CI') else
+                        [c for c in my.MySQLCharacterSet if c.value.code == 33][0], set(), b'\x06' * alen, name))
+                        if alen else None, 'mysql_auth_plugin',
+                        lambda o, alen=alen, name=name: None if (bytes(o.auth_plugin_data_2 or b'') == b'\x06' * alen and
+                                                                  o.auth_plugin_name == name) else 'auth_plugin',
+                        {'kind': 'mysql_auth_plugin', 'len': alen, 'name': name, 'caps': caps})
         for caps, mps, cs in ((0x0800, 0, None), (0x0800, 2 ** 24 - 1, None), (0x0a00, 0, 33), (0x0a00, 2 ** 32 - 1, 8),
                               (0x000a0a00, 2 ** 24, 33)):
             wire = ref.mysql_ssl_request(caps, mps, cs)
